@@ -1,5 +1,6 @@
 import SamplyModel.Lemmas.QuotaHist
 import SamplyModel.Lemmas.QuotaConc
+import SamplyModel.Lemmas.QuotaConcBk
 /-!
 # C15 — cache eviction removes only the least-recently-used excess, inside its root
 
@@ -654,16 +655,65 @@ theorem C15_conc_selection_sound (fs : FS) (root : Path) (inv : List Row) :
     obtain ⟨h1, h2, _⟩ := ageCands_safe fs root inv cut cs h c hc
     exact ⟨h1, h2⟩
 
-/-- **Bookkeeping, per section (partial).** Proved for every state: (1) no section of a pass adds or alters a
+/-- **Bookkeeping = disk after quiescence, for every interleaving.** Start in a world that satisfies the
+invariant of histories (`HistInv`: root `R` a chain of real directories, the table `Good`, the manager open,
+not poisoned, maximum age not beyond the clock) with no pass running and an empty `remove_file` log. Let the
+eviction task begin passes and execute their atomic sections in **any** interleaving `evs` with notifications
+of other tasks, and let the schedule end with no pass running (quiescence). Let `x` be any row of the initial
+table whose key **no notification of the schedule names**: `QuietSched R now x.rel cw evs` — every interleaved
+operation is a notification (`created` / `accessed` / `deleted`), valid in the sense of `OpOk` (a `created`
+path resolves, times are after the epoch, sizes sum below 2^63), and its path, as
+`relative_path_under_managed_directory` resolves it in the state in which it is issued, is not `R/x.rel`.
+Exactly the notifications that name a recorded path are excluded — a `created` for a path the pass has
+selected is the known finding C15-race-recreated-file-deleted (`C15_conc_counterexample_lru`); an `accessed`
+/ `deleted` naming `x` changes or removes the row by itself. Then, exactly as after the sequential pass
+(`C15_bookkeeping`):
+
+* the row is still recorded iff no `remove_file` call for its key succeeded or found the file absent
+  (removed files disappear from the inventory, files already missing are forgotten, nothing else is);
+* if the row is still recorded, its file is untouched (the node `R/x.rel` looks up as at the start);
+* if a `remove_file` call for its key succeeded, the file is gone.
+
+This is the clause `judgeQuiescence` evaluates on every stepped-pass case. -/
+theorem C15_conc_bookkeeping (R : Path) (now : Nat) (cw : CWorld) (evs : List CEv) (x : Row)
+    (inv0 : List Row) (H : HistInv R now cw.w) (m : Mgr) (hm : cw.w.mgr = some m)
+    (hdb : cw.w.db = some inv0) (hx : x ∈ inv0) (h0 : cw.run = none) (hl : cw.log = [])
+    (hq : QuietSched R now x.rel cw evs) (hend : (crun now cw evs).run = none) :
+    ∃ invF, (crun now cw evs).w.db = some invF ∧
+      (x ∈ invF ↔ ¬ ∃ a ∈ (crun now cw evs).log, a.row.rel = x.rel ∧ a.res ≠ .err) ∧
+      (x ∈ invF → (crun now cw evs).w.fs.lookup (R ++ x.rel) = cw.w.fs.lookup (R ++ x.rel)) ∧
+      (∀ a ∈ (crun now cw evs).log, a.row.rel = x.rel → a.res = .ok →
+        (crun now cw evs).w.fs.lookup (R ++ x.rel) = none) := by
+  have I0 : BkInv R now cw.w.fs x cw := by
+    refine ⟨H, ⟨m, hm⟩, (fun r h => by rw [h0] at h; cases h), ?_, ?_, (fun _ => rfl), ?_⟩
+    · intro inv h hxn
+      rw [hdb] at h; cases h
+      exact absurd hx hxn
+    · rintro ⟨a, ha, _⟩
+      rw [hl] at ha; cases ha
+    · intro a ha
+      rw [hl] at ha; cases ha
+  have I := I0.crun evs hq
+  obtain ⟨mF, hmF⟩ := I.mgr
+  obtain ⟨invF, hdbF⟩ := I.hist.mgrDb mF hmF
+  have hB : (∃ a ∈ (crun now cw evs).log, a.row.rel = x.rel ∧ a.res ≠ .err) → x ∉ invF := by
+    intro hex
+    rcases I.B hex with h | ⟨r, _, _, _, hr, _⟩
+    · exact h invF hdbF
+    · rw [hend] at hr; cases hr
+  refine ⟨invF, hdbF, ⟨fun hin hex => hB hex hin, fun hno => ?_⟩, ?_, I.D⟩
+  · exact Classical.byContradiction fun hxn => hno (I.A invF hdbF hxn)
+  · intro hin
+    apply I.C
+    intro a ha hk hok
+    exact hB ⟨a, ha, hk, by rw [hok]; exact fun h => by cases h⟩ hin
+
+/-- **Bookkeeping, per section.** Proved for every state: (1) no section of a pass adds or alters a
 row; (2) the unlink section leaves the table alone and logs the call; (3) on a plain candidate `root/rel` (what
 a selection returns on a good table, `C15_confined_plain`) the bookkeeping section after an unlink that did
 not fail forgets exactly the rows with that key — independently of what ran since the selection — and leaves
-the file system alone. **Missing** for the full clause "after quiescence the bookkeeping matches the disk for
-every file that was not notified while the pass ran": the induction over schedules that carries `Good` and the
-candidate's plainness from the selection to its bookkeeping section through arbitrary notifications about
-*other* keys (`C15_record_created/accessed` say those leave the row alone). That clause is judged on every
-stepped-pass case (`judgeQuiescence`). -/
-theorem C15_conc_bookkeeping_partial (now : Nat) (cw : CWorld) (r : Running) (m : Mgr) (inv : List Row)
+the file system alone. (The building blocks of `C15_conc_bookkeeping`.) -/
+theorem C15_conc_bookkeeping_sections (now : Nat) (cw : CWorld) (r : Running) (m : Mgr) (inv : List Row)
     (hr : cw.run = some r) (hm : cw.w.mgr = some m) (hdb : cw.w.db = some inv) :
     (∀ inv', (pstep now cw).w.db = some inv' → ∀ x ∈ inv', x ∈ inv) ∧
     (∀ row p rest, r.unlinked = none → r.pending = (row, p) :: rest →
@@ -836,3 +886,29 @@ example : HistOk ["root"] 1000 ⟨[(["root"], .dir)], none, none⟩
 
 example : atimeOf ["a"] ([Note.created ["a"] 10 100, .created ["b"] 5 150, .accessed ["a"] 200, .accessed ["c"] 300,
     .deleted ["b"]].foldl applyNote []) = some 200 := by decide
+
+/-- non-vacuity of `C15_conc_bookkeeping`: the race world satisfies the invariant of histories, and a
+schedule in which another task reports an access to `b` between the selection and the delete of `p` is quiet
+for the row of `a` and ends with no pass running. -/
+example : HistInv ["root"] 1000 C15_raceWorld := by
+  refine ⟨dirChain_of_bool _ _ _ (by decide), ?_, ?_, ?_⟩
+  · intro inv h
+    cases h
+    refine ⟨dirChain_of_bool _ _ _ (by decide), ?_, by decide, by decide, by decide⟩
+    intro r hr
+    simp only [List.mem_cons, List.not_mem_nil, or_false] at hr
+    rcases hr with rfl | rfl | rfl <;> simp [NoLinkBelow, C15_raceWorld, List.lookup]
+  · intro m h
+    cases h
+    exact ⟨rfl, rfl, fun a h => by cases h⟩
+  · intro m _
+    exact ⟨_, rfl⟩
+
+example :
+    QuietSched ["root"] 1000 ["a"] (CWorld.ofWorld C15_raceWorld)
+      [.begin, .ext (.accessed ["root", "b"] 900), .pass, .pass, .pass] ∧
+    (crun 1000 (CWorld.ofWorld C15_raceWorld)
+      [.begin, .ext (.accessed ["root", "b"] 900), .pass, .pass, .pass]).run.isNone = true := by
+  refine ⟨?_, by decide⟩
+  show ((0 : Int) ≤ 900 ∧ relUnder _ ["root"] ["root", "b"] ≠ some ["a"]) ∧ True
+  exact ⟨⟨by decide, by decide⟩, trivial⟩
